@@ -11,12 +11,12 @@
     documentation row breaks it;
   * `documented_items` / `composite_rows_expand`: the code's tokenizer yields, for the TEXT of every
     row, exactly the item(s) of the reading — an exchanged or changed arm breaks it.
-  The Example column is checked too (`doc_examples_partial`): the value of the documentation's
+  The Example column is checked too (`doc_examples_ok`): the value of the documentation's
   examples is 2001-07-08T00:34:60.026490+09:30.
 
   Where the documentation is silent the reading follows its own examples elsewhere: `%f` has no
-  stated width (the code pads to 9 digits; the Example cell and footnote 7 show unpadded numbers —
-  see `doc_examples_divergent`), `%x %X %r %c` are "the locale's" forms = the POSIX-locale expansions.
+  stated width (nine digits, zero padded, as its Example cell and footnote 7 show since the repair of
+  finding F31), `%x %X %r %c` are "the locale's" forms = the POSIX-locale expansions.
 -/
 import Chrono.Spec.StrftimeSpec
 namespace Chrono.Spec.StrftimeDoc
@@ -51,7 +51,7 @@ def docRows : List DocRow := [
   ⟨"y", "01",
    "The proleptic Gregorian year modulo 100, zero-padded to 2 digits. [^1]",
    .item (.numeric .yearMod100 .zero)⟩,
-  ⟨"q", "1",
+  ⟨"q", "3",
    "Quarter of year (1-4)",
    .item (.numeric .quarter .none)⟩,
   ⟨"m", "07",
@@ -84,7 +84,7 @@ def docRows : List DocRow := [
   ⟨"u", "7",
    "Monday = 1, Tuesday = 2, ..., Sunday = 7. (ISO 8601)",
    .item (.numeric .weekdayFromMon .none)⟩,
-  ⟨"U", "28",
+  ⟨"U", "27",
    "Week number starting with Sunday (00--53), zero-padded to 2 digits. [^2]",
    .item (.numeric .weekFromSun .zero)⟩,
   ⟨"W", "27",
@@ -138,7 +138,7 @@ def docRows : List DocRow := [
   ⟨"S", "60",
    "Second number (00--60), zero-padded to 2 digits. [^4]",
    .item (.numeric .second .zero)⟩,
-  ⟨"f", "26490000",
+  ⟨"f", "026490000",
    "Number of nanoseconds since last whole second. [^7]",
    .item (.numeric .nanosecond .zero)⟩,
   ⟨".f", ".026490",
@@ -233,12 +233,16 @@ def exOrdinal : Nat := 189
 def exTime : Time := ⟨2099, 1026490000⟩
 def exOff : Int := 34200
 
-/-- Example cells that are NOT what formatting prints (confirmed on the crate): the specifier and the
-text the crate prints instead.  `%Z`: the documentation itself says (footnote 8) that only the offset
-is printed; `%q %U %f`: the example cell is wrong (July is quarter 3; 2001-07-08 is the 27th Sunday of
-2001; `%f` is zero-padded to nine digits). -/
-def exampleDivergent : List (String × String) :=
-  [("q", "3"), ("U", "27"), ("f", "026490000"), ("Z", "+09:30")]
+/-- the one Example cell that is not what formatting prints, BY THE DOCUMENTATION'S OWN ACCOUNT: `%Z`
+shows a zone abbreviation (`ACST`) but footnote 8 says that "this specifier only prints the offset
+when used for formatting" ("Identical to `%:z`"): the text printed instead -/
+def exampleDivergent : List (String × String) := [("Z", "+09:30")]
+/-- footnote 7: "7μs is formatted as `000007000` with `%f`, and formatted as `.000007` with `%.f`" -/
+def footnote7 : String × String := ("000007000", ".000007")
+/-- the cells of `%q`, `%U`, `%f` and the `%f` text of footnote 7 BEFORE the repair of finding F31
+(/repo commit 9d96a4b): pinned pre-fix documentation, not what formatting prints -/
+def exampleBeforeF31 : List (String × String) := [("q", "1"), ("U", "28"), ("f", "26490000")]
+def footnote7BeforeF31 : String := "7000"
 /-- rows whose example is for parsing only (formatting fails) -/
 def exampleParsingOnly : List String := ["#z"]
 
